@@ -125,6 +125,20 @@ int main(void) {
         for (int k = 0; k < NE_Fi[Z] && cnt < 24; k++) if (Fi_arr[Z][k] == 0.0) { uint64_t b; memcpy(&b, &E_Fi_arr[Z][k], 8); printf(" fi:%d:x%016llx", Z, (unsigned long long)b); cnt++; break; }
       }
       putchar('\n');
+    } else if (!strcmp(op, "stored") && n == 2) {
+      /* user-supplied crystal through the public route: a copy carrying a STALE volume (as a modified copy of another crystal
+         would) is added to a private array and looked up again; prints the stored volume of what the array hands out */
+      Crystal_Struct *src = C(t[1]);
+      if (!src) { printf("ok"); pr_d(0.0); printf(" N\n"); continue; }
+      Crystal_Array *arr = Crystal_ArrayInit(2, NULL);
+      Crystal_Struct *cp = Crystal_MakeCopy(src, NULL);
+      Crystal_Struct *g = NULL;
+      if (arr && cp) {
+        cp->volume = cp->volume * 1.25 + 1.0;
+        if (Crystal_AddCrystal(cp, arr, NULL)) g = Crystal_GetCrystal(cp->name, arr, NULL);
+      }
+      printf("ok"); pr_d(g ? g->volume : 0.0); printf(g ? " E\n" : " N\n");
+      Crystal_Free(g); Crystal_Free(cp); if (arr) Crystal_ArrayFree(arr);
     } else if (!strcmp(op, "vol") && n == 3) {
       SLOT(t[2]); double v = Crystal_UnitCellVolume(C(t[1]), ep); printf("ok"); pr_d(v); pr_slot(mode, e);
     } else if (!strcmp(op, "dsp") && n == 6) {
